@@ -1,0 +1,22 @@
+//go:build verif
+// +build verif
+
+package replication
+
+// Verification hooks: add-only re-exports of unexported functions, compiled
+// only with the build tag "verif".
+
+// VerifCellLength exposes cellLength.
+func VerifCellLength(data []byte, pos int, typ byte, metadata uint16) (int, error) {
+	return cellLength(data, pos, typ, metadata)
+}
+
+// VerifReadLenEncInt exposes readLenEncInt.
+func VerifReadLenEncInt(data []byte, pos int) (uint64, int, bool) {
+	return readLenEncInt(data, pos)
+}
+
+// VerifMetadataRead exposes metadataRead.
+func VerifMetadataRead(data []byte, pos int, typ byte) (uint16, int, error) {
+	return metadataRead(data, pos, typ)
+}
